@@ -330,8 +330,9 @@ func (to *TraceObserver) doStreaming() spanBatchSenderStatus {
 				// Shutdown timed out and closed the queue.
 				return spanBatchSenderStatus{code: statusShutdown}
 			}
-			log.Debugf("trace observer sending span batch of size %d, %d of %d remaining in queue",
-				msg.count, to.messagesRemainingCapacity, to.QueueSize)
+			// messagesRemainingCapacity belongs to the goroutine calling
+			// QueueBatch and must not be read here.
+			log.Debugf("trace observer sending span batch of size %d", msg.count)
 			if err, status := to.sender.send(encodedSpanBatch(msg.batch)); err != nil {
 				to.messagesSent <- msg.count
 				// Add 0 to dataUsage channel so that we successfully count the send attempt
